@@ -217,39 +217,57 @@ def cmd_survive(n, seed):
 
 
 def responsible(m):
-    """checks that are responsible for the code a mutant touches"""
+    """checks responsible for the code a mutant touches, most specific first (None: no property covers it)"""
     f, fn = m['file'], m['func']
+    low = fn.lower()
     if f.endswith('classes.py'):
-        return ['C06', 'C07', 'C03']
+        if any(k in low for k in ('__or', '__ror', '__sub', '__rsub', '__invert', 'extract_classes', 'modify_classes', 'split_range')):
+            return ['C07', 'C06']
+        return ['C06', 'C07']
     if f.endswith('essentials.py'):
+        if 'Email' in fn or 'HttpUrl' in fn or fn.startswith(('Text', 'NonWhitespace', 'Whitespace')):
+            return None
         for key, cs in (('Integer', ['C15', 'C16']), ('Decimal', ['C16']), ('Numeral', ['C17', 'C16']), ('Word', ['C17']), ('IPv4', ['C18']),
                         ('IPv6', ['C18']), ('Date', ['C19'])):
             if key in fn:
-                return cs + ['C03']
-        return None        # Email, HttpUrl, Text ...: no property
+                return cs
+        return None
     if f.endswith('operators.py'):
-        return ['C02', 'C05', 'C03']
+        return ['C02', 'C05']
     if f.endswith('quantifiers.py'):
-        return ['C04', 'C09', 'C05']
+        return ['C04', 'C09']
     if f.endswith('groups.py'):
-        return ['C08', 'C02', 'C03']
+        return ['C03', 'C08', 'C02']
     if f.endswith('assertions.py'):
-        return ['C10', 'C09', 'C05', 'C02']
+        return ['C10', 'C09', 'C05']
     # pre.py
-    low = fn.lower()
-    api = ('match', 'capture', 'split', 'replace', 'extract_text', 'compile', 'purge', 'iterate')
-    if any(k in low for k in ('get_matches', 'iterate_', 'get_captures', 'get_named', 'split_by', 'replace', 'has_match', 'is_exact_match',
-                              '__extract_text', 'get_compiled', 'compile', 'purge', 'with_context')):
-        return ['C11', 'C12', 'C13', 'C14', 'C20']
+    if 'print_pattern' in low:
+        return None
+    if 'with_context' in low or 'extract_text' in low:
+        return ['C14']
+    if 'captures' in low:
+        return ['C12']
+    if 'split_by' in low or 'replace' in low:
+        return ['C13']
+    if any(k in low for k in ('get_compiled', '.compile', 'purge')):
+        return ['C11', 'C20']
+    if any(k in low for k in ('has_match', 'is_exact_match', 'iterate_match', 'get_matches')):
+        return ['C11', 'C12']
     if any(k in low for k in ('optional', 'indefinite', 'one_or_more', 'exactly', 'at_least', 'at_most', '__mul__', '__rmul__')):
-        return ['C04', 'C09', 'C05', 'C03']
-    if any(k in low for k in ('preceded', 'followed', 'enclosed', 'match_at', 'fixed_width', 'assert')):
-        return ['C10', 'C09', 'C05', 'C02', 'C03']
-    if any(k in low for k in ('.capture', '.group', 'pregex.capture', 'pregex.group')):
-        return ['C08', 'C02', 'C03']
-    if any(k in low for k in ('escape', '__init__', 'to_pregex', 'repr', 'str', 'get_pattern', 'print_pattern')):
-        return ['C01', 'C03', 'C02']
-    return ['C02', 'C01', 'C08', 'C09', 'C04', 'C05', 'C10', 'C03']
+        return ['C04', 'C05']
+    if any(k in low for k in ('preceded', 'followed', 'enclosed', 'fixed_width')):
+        return ['C10', 'C05', 'C09']
+    if 'match_at' in low:
+        return ['C09', 'C02']
+    if low.endswith(('.capture', '.group')):
+        return ['C08', 'C03']
+    if 'concat' in low or 'either' in low or 'enclose' in low or '__join' in low or '__add__' in low or '__radd__' in low:
+        return ['C02', 'C05']
+    if '_to_pregex' in low or 'escape' in low or '__init__' in low:
+        return ['C03', 'C01']
+    if 'infer_type' in low:
+        return ['C02', 'C09', 'C08', 'C04']
+    return ['C02', 'C09']
 
 
 def run_checks(m, checks):
